@@ -166,6 +166,19 @@ def run(ctx, prog, res):
                  "is_val answers %s before every range and column was looked at (premature for a universal check)" % [b[1] for b in bad], lib.where_of(f, bad[0][2]) if bad else lib.where_of(f))
     r6.check(n >= 1, {"is_val_impls_for_Dim": n}, "C07.R6:FLOOR", "FLOOR: Dim::is_val not found")
 
+    # R6 (continued): leaving the paved area is tested at both ends of the range
+    for f_ in [x for x in prog.fns.values() if x.name == "is_val" and "paving::Dim<" in x.id and x.impl]:
+        got_ = set()
+        for _, d_ in flow.comparisons(f_):
+            a_, b_ = flow.shape(f_, d_["a"], depth=6), flow.shape(f_, d_["b"], depth=6)
+            for x_, y_ in ((a_, b_), (b_, a_)):
+                m1 = re.search(r"\.(start|end)$", x_)
+                m2 = re.search(r"slice::(first|last)\(p1\.cuts\)", y_)
+                if m1 and m2:
+                    got_.add((m1.group(1), m2.group(1)))
+        r6.check({("start", "first"), ("end", "last")} <= got_, {"fn": f_.id.split("::")[-1], "paved_area_test": sorted(got_)}, "C07.R6:paved-area",
+                 "Dim::is_val tests whether a range leaves the paved area with %s (expected: its start against the first cut and its end against the last cut): a range overlapping one side only is taken as paved" % sorted(got_), lib.where_of(f_))
+
     # R7 -------------------------------------------------------------------------------------
     r7 = res.rule("C07.R7", "a normal (non-closed) rule first resets the whole day on its days: the reset selector is the rule's day selector with the full time bounds and the default value")
     sets = [(bb, t) for bb, t in nz.calls() if flow.call_names(t)[0].endswith("paving::Paving::set")]
